@@ -13,74 +13,76 @@ namespace SoyVerif.Lemmas.ParserSafe
 open SoyVerif SoyVerif.Model SoyVerif.Model.Parser SoyVerif.Model.FileParser
 
 section
-variable (AP : Prop) (S : Item → Prop) (pf : Bytes → Option UInt64) (ef N : Nat)
+variable (AP EL : Prop) (S : Item → Prop) (pf : Bytes → Option UInt64) (ef N : Nat)
 
 /-- plain post-condition: invariant kept, no real token un-consumed -/
 def FPost (st : FState) {α : Type} : α → FState → Prop :=
-  fun _ st' => Inv S st'.p ∧ mu st'.p ≤ mu st.p
+  fun _ st' => Inv EL S st'.p ∧ mu st'.p ≤ mu st.p
 
 /-- post-condition of `itemList`: a well-shaped list; the token that ended it may be backed up -/
-def ListPost (st : FState) : Node → FState → Prop :=
-  fun r st' => listOK r ∧ Inv S st'.p ∧ st'.p.peekCount ≤ 1 ∧ mu st'.p + real (top st'.p) ≤ mu st.p
+def ListPost (untl : List ItemType) (st : FState) : Node → FState → Prop :=
+  fun r st' => listOK r ∧ Inv EL S st'.p ∧ st'.p.peekCount ≤ 1 ∧ mu st'.p + real (top st'.p) ≤ mu st.p ∧
+    untl.contains (top st'.p).typ = true
 
 /-- post-condition of the command parsers: the node may become a child of a message body -/
 def NPost (st : FState) : Node → FState → Prop :=
-  fun r st' => childOK r ∧ Inv S st'.p ∧ mu st'.p ≤ mu st.p
+  fun r st' => childOK r ∧ Inv EL S st'.p ∧ mu st'.p ≤ mu st.p
 
 def BPost (st : FState) : Option Node → FState → Prop :=
-  fun r st' => (∀ n, r = some n → childOK n) ∧ Inv S st'.p ∧ mu st'.p ≤ mu st.p
+  fun r st' => (∀ n, r = some n → childOK n) ∧ Inv EL S st'.p ∧ mu st'.p ≤ mu st.p
 
 def SwPost (st : FState) : Node → FState → Prop :=
-  fun r st' => (∃ p v cs, r = .switch p v cs ∧ casesOK cs) ∧ Inv S st'.p ∧ mu st'.p ≤ mu st.p
+  fun r st' => (∃ p v cs, r = .switch p v cs ∧ casesOK cs) ∧ Inv EL S st'.p ∧ mu st'.p ≤ mu st.p
 
 def CasePost (st : FState) : Node → FState → Prop :=
-  fun r st' => (∃ p vs b, r = .switchCase p vs b ∧ listOK b) ∧ Inv S st'.p ∧ mu st'.p ≤ mu st.p
+  fun r st' => (∃ p vs b, r = .switchCase p vs b ∧ listOK b) ∧ Inv EL S st'.p ∧ mu st'.p ≤ mu st.p
 
 structure FileSpecs (fuel : Nat) : Prop where
-  itemListLoop : ∀ untl lpos nodes st, childrenOK nodes → Inv S st.p → mu st.p ≤ N → 8 * mu st.p + 20 ≤ fuel →
-    FSafe AP S (itemListLoop pf ef fuel untl lpos nodes) st (ListPost S st)
-  textOrTag : ∀ token untl st, S token → Inv S st.p → st.p.peekCount ≤ 1 → top st.p = token →
+  itemListLoop : ∀ untl lpos nodes st, childrenOK nodes → Inv EL S st.p → mu st.p ≤ N → 8 * mu st.p + 20 ≤ fuel →
+    FSafe AP S (itemListLoop pf ef fuel untl lpos nodes) st (ListPost EL S untl st)
+  textOrTag : ∀ token untl st, S token → Inv EL S st.p → st.p.peekCount ≤ 1 → top st.p = token →
     mu st.p + real token ≤ N → 8 * (mu st.p + real token) + 19 ≤ fuel →
-    FSafe AP S (textOrTag pf ef fuel token untl) st (fun r st' => (∀ n, r.1 = some n → childOK n) ∧ Inv S st'.p ∧
-      (r.2 = true → st'.p.peekCount ≤ 1 ∧ mu st'.p + real (top st'.p) ≤ mu st.p + real token) ∧
+    FSafe AP S (textOrTag pf ef fuel token untl) st (fun r st' => (∀ n, r.1 = some n → childOK n) ∧ Inv EL S st'.p ∧
+      (r.2 = true → st'.p.peekCount ≤ 1 ∧ mu st'.p + real (top st'.p) ≤ mu st.p + real token ∧
+        untl.contains (top st'.p).typ = true) ∧
       (r.2 = false → mu st'.p + 1 ≤ mu st.p + real token))
-  beginTag : ∀ st, Inv S st.p → mu st.p ≤ N → 8 * mu st.p + 20 ≤ fuel →
-    FSafe AP S (beginTag pf ef fuel) st (BPost S st)
-  parseTemplate : ∀ token st, Inv S st.p → mu st.p ≤ N → 8 * mu st.p + 20 ≤ fuel →
-    FSafe AP S (parseTemplate pf ef fuel token) st (NPost S st)
-  parseLet : ∀ token st, Inv S st.p → mu st.p ≤ N → 8 * mu st.p + 20 ≤ fuel →
-    FSafe AP S (parseLet pf ef fuel token) st (NPost S st)
-  ifLoop : ∀ pos isElse conds st, Inv S st.p → mu st.p ≤ N → 8 * mu st.p + 20 ≤ fuel →
-    FSafe AP S (ifLoop pf ef fuel pos isElse conds) st (NPost S st)
-  parseFor : ∀ token st, Inv S st.p → mu st.p ≤ N → 8 * mu st.p + 20 ≤ fuel →
-    FSafe AP S (parseFor pf ef fuel token) st (NPost S st)
-  parseSwitch : ∀ token endT st, endT ≠ .tInvalid → Inv S st.p → mu st.p ≤ N → 8 * mu st.p + 19 ≤ fuel →
-    FSafe AP S (parseSwitch pf ef fuel token endT) st (SwPost S st)
-  switchLoop : ∀ pos value endT cases st, endT ≠ .tInvalid → casesOK cases → Inv S st.p → mu st.p ≤ N → 8 * mu st.p + 20 ≤ fuel →
-    FSafe AP S (switchLoop pf ef fuel pos value endT cases) st (SwPost S st)
-  caseLoop : ∀ token values st, Inv S st.p → mu st.p ≤ N → 8 * mu st.p + 20 ≤ fuel →
-    FSafe AP S (caseLoop pf ef fuel token values) st (CasePost S st)
-  parseCall : ∀ token st, Inv S st.p → mu st.p ≤ N → 8 * mu st.p + 20 ≤ fuel →
-    FSafe AP S (parseCall pf ef fuel token) st (NPost S st)
-  callParamsLoop : ∀ params st, Inv S st.p → mu st.p ≤ N → 8 * mu st.p + 20 ≤ fuel →
-    FSafe AP S (callParamsLoop pf ef fuel params) st (FPost S st)
-  orphanLoop : ∀ initial st, S initial → Inv S st.p → st.p.peekCount ≤ 1 → top st.p = initial →
+  beginTag : ∀ st, Inv EL S st.p → mu st.p ≤ N → 8 * mu st.p + 20 ≤ fuel →
+    FSafe AP S (beginTag pf ef fuel) st (BPost EL S st)
+  parseTemplate : ∀ token st, Inv EL S st.p → mu st.p ≤ N → 8 * mu st.p + 20 ≤ fuel →
+    FSafe AP S (parseTemplate pf ef fuel token) st (NPost EL S st)
+  parseLet : ∀ token st, Inv EL S st.p → mu st.p ≤ N → 8 * mu st.p + 20 ≤ fuel →
+    FSafe AP S (parseLet pf ef fuel token) st (NPost EL S st)
+  ifLoop : ∀ pos isElse conds st, Inv EL S st.p → mu st.p ≤ N → 8 * mu st.p + 20 ≤ fuel →
+    FSafe AP S (ifLoop pf ef fuel pos isElse conds) st (NPost EL S st)
+  parseFor : ∀ token st, Inv EL S st.p → mu st.p ≤ N → 8 * mu st.p + 20 ≤ fuel →
+    FSafe AP S (parseFor pf ef fuel token) st (NPost EL S st)
+  parseSwitch : ∀ token endT st, endT ≠ .tInvalid → Inv EL S st.p → mu st.p ≤ N → 8 * mu st.p + 19 ≤ fuel →
+    FSafe AP S (parseSwitch pf ef fuel token endT) st (SwPost EL S st)
+  switchLoop : ∀ pos value endT cases st, endT ≠ .tInvalid → casesOK cases → Inv EL S st.p → mu st.p ≤ N → 8 * mu st.p + 20 ≤ fuel →
+    FSafe AP S (switchLoop pf ef fuel pos value endT cases) st (SwPost EL S st)
+  caseLoop : ∀ token values st, Inv EL S st.p → mu st.p ≤ N → 8 * mu st.p + 20 ≤ fuel →
+    FSafe AP S (caseLoop pf ef fuel token values) st (CasePost EL S st)
+  parseCall : ∀ token st, Inv EL S st.p → mu st.p ≤ N → 8 * mu st.p + 20 ≤ fuel →
+    FSafe AP S (parseCall pf ef fuel token) st (NPost EL S st)
+  callParamsLoop : ∀ params st, Inv EL S st.p → mu st.p ≤ N → 8 * mu st.p + 20 ≤ fuel →
+    FSafe AP S (callParamsLoop pf ef fuel params) st (FPost EL S st)
+  orphanLoop : ∀ initial st, S initial → Inv EL S st.p → st.p.peekCount ≤ 1 → top st.p = initial →
     8 * (mu st.p + real initial) + 19 ≤ fuel →
-    FSafe AP S (orphanLoop pf ef fuel initial) st (fun tok st' => S tok ∧ Inv S st'.p ∧ st'.p.peekCount ≤ 1 ∧
+    FSafe AP S (orphanLoop pf ef fuel initial) st (fun tok st' => S tok ∧ Inv EL S st'.p ∧ st'.p.peekCount ≤ 1 ∧
       top st'.p = tok ∧ mu st'.p + real tok ≤ mu st.p + real initial)
-  parseMsg : ∀ token st, Inv S st.p → mu st.p ≤ N → 8 * mu st.p + 20 ≤ fuel →
-    FSafe AP S (parseMsg pf ef fuel token) st (NPost S st)
-  parsePlural : ∀ tok st, S tok → Inv S st.p → mu st.p ≤ N → 8 * mu st.p + 20 ≤ fuel →
-    FSafe AP S (parsePlural pf ef fuel tok) st (NPost S st)
+  parseMsg : ∀ token st, Inv EL S st.p → mu st.p ≤ N → 8 * mu st.p + 20 ≤ fuel →
+    FSafe AP S (parseMsg pf ef fuel token) st (NPost EL S st)
+  parsePlural : ∀ tok st, S tok → Inv EL S st.p → mu st.p ≤ N → 8 * mu st.p + 20 ≤ fuel →
+    FSafe AP S (parsePlural pf ef fuel tok) st (NPost EL S st)
 
 variable (hz : S Item.zero) (hN : 8 * N + 10 ≤ ef)
 variable (hwf : ∀ it, S it → AP ∨ WFItem it)
 variable (hlex : ∀ (str : Bytes) (is : List Item), Lex.lexAll str true = .items is → ∀ it ∈ is, AP ∨ WFItem it)
 include hz hN hwf hlex
 
-theorem itemListLoop_ok {fuel : Nat} (ih : FileSpecs AP S pf ef N fuel) (untl : List ItemType) (lpos : Option Nat)
-    (nodes : NodeList) (st : FState) (hnodes : childrenOK nodes) (hi : Inv S st.p) (hn : mu st.p ≤ N) (hf : 8 * mu st.p + 20 ≤ fuel + 1) :
-    FSafe AP S (itemListLoop pf ef (fuel + 1) untl lpos nodes) st (ListPost S st) := by
+theorem itemListLoop_ok {fuel : Nat} (ih : FileSpecs AP EL S pf ef N fuel) (untl : List ItemType) (lpos : Option Nat)
+    (nodes : NodeList) (st : FState) (hnodes : childrenOK nodes) (hi : Inv EL S st.p) (hn : mu st.p ≤ N) (hf : 8 * mu st.p + 20 ≤ fuel + 1) :
+    FSafe AP S (itemListLoop pf ef (fuel + 1) untl lpos nodes) st (ListPost EL S untl st) := by
   unfold FileParser.itemListLoop
   apply FSafe.bind
   apply fnext_safe hz hi
@@ -94,24 +96,25 @@ theorem itemListLoop_ok {fuel : Nat} (ih : FileSpecs AP S pf ef N fuel) (untl : 
   | true =>
     have := hh rfl
     simp only [if_true]
-    exact FSafe.pure ⟨hnodes, hi2, this.1, by omega⟩
+    exact FSafe.pure ⟨hnodes, hi2, this.1, by omega, this.2.2⟩
   | false =>
     have := hc rfl
     simp only [Bool.false_eq_true, if_false]
     split
     · rename_i n
       apply (ih.itemListLoop _ _ _ st2 (childrenOK_append _ _ _ rfl hnodes (show childrenOK (.cons n .nil) from ⟨hsh n rfl, trivial⟩)) hi2 (by omega) (by omega)).mono
-      intro r st3 ⟨l, a, b, c⟩
-      exact ⟨l, a, b, by omega⟩
+      intro r st3 ⟨l, a, b, c, d⟩
+      exact ⟨l, a, b, by omega, d⟩
     · apply (ih.itemListLoop _ _ _ st2 hnodes hi2 (by omega) (by omega)).mono
-      intro r st3 ⟨l, a, b, c⟩
-      exact ⟨l, a, b, by omega⟩
+      intro r st3 ⟨l, a, b, c, d⟩
+      exact ⟨l, a, b, by omega, d⟩
 
-theorem textOrTag_ok {fuel : Nat} (ih : FileSpecs AP S pf ef N fuel) (token : Item) (untl : List ItemType)
-    (st : FState) (hs : S token) (hi : Inv S st.p) (hpc : st.p.peekCount ≤ 1) (htop : top st.p = token)
+theorem textOrTag_ok {fuel : Nat} (ih : FileSpecs AP EL S pf ef N fuel) (token : Item) (untl : List ItemType)
+    (st : FState) (hs : S token) (hi : Inv EL S st.p) (hpc : st.p.peekCount ≤ 1) (htop : top st.p = token)
     (hn : mu st.p + real token ≤ N) (hf : 8 * (mu st.p + real token) + 19 ≤ fuel + 1) :
-    FSafe AP S (textOrTag pf ef (fuel + 1) token untl) st (fun r st' => (∀ n, r.1 = some n → childOK n) ∧ Inv S st'.p ∧
-      (r.2 = true → st'.p.peekCount ≤ 1 ∧ mu st'.p + real (top st'.p) ≤ mu st.p + real token) ∧
+    FSafe AP S (textOrTag pf ef (fuel + 1) token untl) st (fun r st' => (∀ n, r.1 = some n → childOK n) ∧ Inv EL S st'.p ∧
+      (r.2 = true → st'.p.peekCount ≤ 1 ∧ mu st'.p + real (top st'.p) ≤ mu st.p + real token ∧
+        untl.contains (top st'.p).typ = true) ∧
       (r.2 = false → mu st'.p + 1 ≤ mu st.p + real token)) := by
   unfold FileParser.textOrTag
   simp only
@@ -119,12 +122,15 @@ theorem textOrTag_ok {fuel : Nat} (ih : FileSpecs AP S pf ef N fuel) (token : It
   apply skipComments_safe hz fuel token st _ hs hi hpc htop (by omega)
   intro tok st1 hs1 hi1 hpc1 ht1 hm1
   split
-  · exact FSafe.pure ⟨fun n h => by simp at h, hi1, fun _ => ⟨hpc1, by rw [ht1]; omega⟩, fun h => by simp at h⟩
+  · rename_i hu
+    exact FSafe.pure ⟨fun n h => by simp at h, hi1, fun _ => ⟨hpc1, by rw [ht1]; omega, by rw [ht1]; exact hu⟩, fun h => by simp at h⟩
   · apply FSafe.bind
     apply fnext_safe hz hi1
     intro token2 st2 hi2 hs2 hpc2 ht2 hm2 _
     split
-    · exact FSafe.pure ⟨fun n h => by simp at h, hi2, fun _ => ⟨by omega, by rw [ht2]; omega⟩, fun h => by simp at h⟩
+    · rename_i hu2
+      simp only [Bool.and_eq_true] at hu2
+      exact FSafe.pure ⟨fun n h => by simp at h, hi2, fun _ => ⟨by omega, by rw [ht2]; omega, by rw [ht2]; exact hu2.2⟩, fun h => by simp at h⟩
     · apply FSafe.bind
       apply fbackup_safe hi2 (by omega)
       intro st3 hi3 hm3 _
@@ -163,9 +169,9 @@ theorem textOrTag_ok {fuel : Nat} (ih : FileSpecs AP S pf ef N fuel) (token : It
       · exact funexpected_safe hi3 hs1
 
 
-theorem beginTag_ok {fuel : Nat} (ih : FileSpecs AP S pf ef N fuel) (st : FState) (hi : Inv S st.p)
+theorem beginTag_ok {fuel : Nat} (ih : FileSpecs AP EL S pf ef N fuel) (st : FState) (hi : Inv EL S st.p)
     (hn : mu st.p ≤ N) (hf : 8 * mu st.p + 20 ≤ fuel + 1) :
-    FSafe AP S (beginTag pf ef (fuel + 1)) st (BPost S st) := by
+    FSafe AP S (beginTag pf ef (fuel + 1)) st (BPost EL S st) := by
   unfold FileParser.beginTag
   apply FSafe.bind
   apply fnext_safe hz hi
@@ -324,9 +330,9 @@ theorem beginTag_ok {fuel : Nat} (ih : FileSpecs AP S pf ef N fuel) (st : FState
     | exact funexpected_safe hi1 hs1
 
 
-theorem parseTemplate_ok {fuel : Nat} (ih : FileSpecs AP S pf ef N fuel) (token : Item) (st : FState)
-    (hi : Inv S st.p) (hn : mu st.p ≤ N) (hf : 8 * mu st.p + 20 ≤ fuel + 1) :
-    FSafe AP S (parseTemplate pf ef (fuel + 1) token) st (NPost S st) := by
+theorem parseTemplate_ok {fuel : Nat} (ih : FileSpecs AP EL S pf ef N fuel) (token : Item) (st : FState)
+    (hi : Inv EL S st.p) (hn : mu st.p ≤ N) (hf : 8 * mu st.p + 20 ≤ fuel + 1) :
+    FSafe AP S (parseTemplate pf ef (fuel + 1) token) st (NPost EL S st) := by
   unfold FileParser.parseTemplate
   apply FSafe.bind
   apply fexpect_safe hz hi
@@ -354,9 +360,9 @@ theorem parseTemplate_ok {fuel : Nat} (ih : FileSpecs AP S pf ef N fuel) (token 
   intro rd2 st5 hi5 _ _ _ hm5 _
   exact FSafe.pure ⟨trivial, hi5, by omega⟩
 
-theorem parseLet_ok {fuel : Nat} (ih : FileSpecs AP S pf ef N fuel) (token : Item) (st : FState)
-    (hi : Inv S st.p) (hn : mu st.p ≤ N) (hf : 8 * mu st.p + 20 ≤ fuel + 1) :
-    FSafe AP S (parseLet pf ef (fuel + 1) token) st (NPost S st) := by
+theorem parseLet_ok {fuel : Nat} (ih : FileSpecs AP EL S pf ef N fuel) (token : Item) (st : FState)
+    (hi : Inv EL S st.p) (hn : mu st.p ≤ N) (hf : 8 * mu st.p + 20 ≤ fuel + 1) :
+    FSafe AP S (parseLet pf ef (fuel + 1) token) st (NPost EL S st) := by
   unfold FileParser.parseLet
   apply FSafe.bind
   apply fexpect_safe hz hi
@@ -398,12 +404,12 @@ theorem parseLet_ok {fuel : Nat} (ih : FileSpecs AP S pf ef N fuel) (token : Ite
       exact FSafe.pure ⟨trivial, hi6, by omega⟩
     · exact funexpected_safe hi4 hs4
 
-theorem ifLoop_ok {fuel : Nat} (ih : FileSpecs AP S pf ef N fuel) (pos : Nat) (isElse : Bool) (conds : NodeList)
-    (st : FState) (hi : Inv S st.p) (hn : mu st.p ≤ N) (hf : 8 * mu st.p + 20 ≤ fuel + 1) :
-    FSafe AP S (ifLoop pf ef (fuel + 1) pos isElse conds) st (NPost S st) := by
+theorem ifLoop_ok {fuel : Nat} (ih : FileSpecs AP EL S pf ef N fuel) (pos : Nat) (isElse : Bool) (conds : NodeList)
+    (st : FState) (hi : Inv EL S st.p) (hn : mu st.p ≤ N) (hf : 8 * mu st.p + 20 ≤ fuel + 1) :
+    FSafe AP S (ifLoop pf ef (fuel + 1) pos isElse conds) st (NPost EL S st) := by
   unfold FileParser.ifLoop
   apply FSafe.bind
-  apply FSafe.mono (Q := fun _ st' => Inv S st'.p ∧ mu st'.p ≤ mu st.p)
+  apply FSafe.mono (Q := fun _ st' => Inv EL S st'.p ∧ mu st'.p ≤ mu st.p)
   · split
     · apply FSafe.bind
       apply parseExpr0_safe hz pf ef N hN hwf hi hn
@@ -442,9 +448,9 @@ theorem ifLoop_ok {fuel : Nat} (ih : FileSpecs AP S pf ef N fuel) (pos : Nat) (i
       intro r st6 ⟨c, a, b⟩
       exact ⟨c, a, by omega⟩
 
-theorem parseFor_ok {fuel : Nat} (ih : FileSpecs AP S pf ef N fuel) (token : Item) (st : FState)
-    (hi : Inv S st.p) (hn : mu st.p ≤ N) (hf : 8 * mu st.p + 20 ≤ fuel + 1) :
-    FSafe AP S (parseFor pf ef (fuel + 1) token) st (NPost S st) := by
+theorem parseFor_ok {fuel : Nat} (ih : FileSpecs AP EL S pf ef N fuel) (token : Item) (st : FState)
+    (hi : Inv EL S st.p) (hn : mu st.p ≤ N) (hf : 8 * mu st.p + 20 ≤ fuel + 1) :
+    FSafe AP S (parseFor pf ef (fuel + 1) token) st (NPost EL S st) := by
   unfold FileParser.parseFor
   apply FSafe.bind
   apply fexpect_safe hz hi
@@ -471,7 +477,7 @@ theorem parseFor_ok {fuel : Nat} (ih : FileSpecs AP S pf ef N fuel) (token : Ite
     apply fnext_safe hz hi6
     intro t st7 hi7 hs7 _ _ hm7 _
     apply FSafe.bind
-    apply FSafe.mono (Q := fun _ st' => Inv S st'.p ∧ mu st'.p ≤ mu st7.p)
+    apply FSafe.mono (Q := fun _ st' => Inv EL S st'.p ∧ mu st'.p ≤ mu st7.p)
     · split
       · apply FSafe.bind
         apply fexpect_safe hz hi7
@@ -490,10 +496,10 @@ theorem parseFor_ok {fuel : Nat} (ih : FileSpecs AP S pf ef N fuel) (token : Ite
       intro _ vv _
       exact FSafe.pure ⟨trivial, hi9, by omega⟩
 
-theorem parseSwitch_ok {fuel : Nat} (ih : FileSpecs AP S pf ef N fuel) (token : Item) (endT : ItemType)
+theorem parseSwitch_ok {fuel : Nat} (ih : FileSpecs AP EL S pf ef N fuel) (token : Item) (endT : ItemType)
     (hend : endT ≠ .tInvalid) (st : FState)
-    (hi : Inv S st.p) (hn : mu st.p ≤ N) (hf : 8 * mu st.p + 19 ≤ fuel + 1) :
-    FSafe AP S (parseSwitch pf ef (fuel + 1) token endT) st (SwPost S st) := by
+    (hi : Inv EL S st.p) (hn : mu st.p ≤ N) (hf : 8 * mu st.p + 19 ≤ fuel + 1) :
+    FSafe AP S (parseSwitch pf ef (fuel + 1) token endT) st (SwPost EL S st) := by
   unfold FileParser.parseSwitch
   apply FSafe.bind
   apply parseExpr0_safe hz pf ef N hN hwf hi hn
@@ -505,10 +511,10 @@ theorem parseSwitch_ok {fuel : Nat} (ih : FileSpecs AP S pf ef N fuel) (token : 
   intro r st3 ⟨c, a, b⟩
   exact ⟨c, a, by omega⟩
 
-theorem switchLoop_ok {fuel : Nat} (ih : FileSpecs AP S pf ef N fuel) (pos : Nat) (value : Expr) (endT : ItemType)
+theorem switchLoop_ok {fuel : Nat} (ih : FileSpecs AP EL S pf ef N fuel) (pos : Nat) (value : Expr) (endT : ItemType)
     (cases : NodeList) (st : FState) (hend : endT ≠ .tInvalid) (hcs : casesOK cases)
-    (hi : Inv S st.p) (hn : mu st.p ≤ N) (hf : 8 * mu st.p + 20 ≤ fuel + 1) :
-    FSafe AP S (switchLoop pf ef (fuel + 1) pos value endT cases) st (SwPost S st) := by
+    (hi : Inv EL S st.p) (hn : mu st.p ≤ N) (hf : 8 * mu st.p + 20 ≤ fuel + 1) :
+    FSafe AP S (switchLoop pf ef (fuel + 1) pos value endT cases) st (SwPost EL S st) := by
   unfold FileParser.switchLoop
   apply FSafe.bind
   apply fnext_safe hz hi
@@ -553,12 +559,12 @@ theorem switchLoop_ok {fuel : Nat} (ih : FileSpecs AP S pf ef N fuel) (pos : Nat
     exact ⟨c, a, by omega⟩
   · exact funexpected_safe hi1 hs1
 
-theorem caseLoop_ok {fuel : Nat} (ih : FileSpecs AP S pf ef N fuel) (token : Item) (values : List Expr)
-    (st : FState) (hi : Inv S st.p) (hn : mu st.p ≤ N) (hf : 8 * mu st.p + 20 ≤ fuel + 1) :
-    FSafe AP S (caseLoop pf ef (fuel + 1) token values) st (CasePost S st) := by
+theorem caseLoop_ok {fuel : Nat} (ih : FileSpecs AP EL S pf ef N fuel) (token : Item) (values : List Expr)
+    (st : FState) (hi : Inv EL S st.p) (hn : mu st.p ≤ N) (hf : 8 * mu st.p + 20 ≤ fuel + 1) :
+    FSafe AP S (caseLoop pf ef (fuel + 1) token values) st (CasePost EL S st) := by
   unfold FileParser.caseLoop
   apply FSafe.bind
-  apply FSafe.mono (Q := fun _ st' => Inv S st'.p ∧ mu st'.p ≤ mu st.p)
+  apply FSafe.mono (Q := fun _ st' => Inv EL S st'.p ∧ mu st'.p ≤ mu st.p)
   · split
     · apply FSafe.bind
       apply parseExpr0_safe hz pf ef N hN hwf hi hn
@@ -586,9 +592,9 @@ theorem caseLoop_ok {fuel : Nat} (ih : FileSpecs AP S pf ef N fuel) (token : Ite
     · exact funexpected_safe hi2 hs2
 
 
-theorem parseCall_ok {fuel : Nat} (ih : FileSpecs AP S pf ef N fuel) (token : Item) (st : FState)
-    (hi : Inv S st.p) (hn : mu st.p ≤ N) (hf : 8 * mu st.p + 20 ≤ fuel + 1) :
-    FSafe AP S (parseCall pf ef (fuel + 1) token) st (NPost S st) := by
+theorem parseCall_ok {fuel : Nat} (ih : FileSpecs AP EL S pf ef N fuel) (token : Item) (st : FState)
+    (hi : Inv EL S st.p) (hn : mu st.p ≤ N) (hf : 8 * mu st.p + 20 ≤ fuel + 1) :
+    FSafe AP S (parseCall pf ef (fuel + 1) token) st (NPost EL S st) := by
   unfold FileParser.parseCall
   apply FSafe.bind
   apply parseCallHead_safe hz pf hlex fuel st _ hi (by omega)
@@ -617,10 +623,10 @@ theorem parseCall_ok {fuel : Nat} (ih : FileSpecs AP S pf ef N fuel) (token : It
     exact FSafe.pure ⟨trivial, hi6, by omega⟩
   · exact funexpected_safe hi2 hs2
 
-theorem orphanLoop_ok {fuel : Nat} (ih : FileSpecs AP S pf ef N fuel) (initial : Item) (st : FState)
-    (hs : S initial) (hi : Inv S st.p) (hpc : st.p.peekCount ≤ 1) (htop : top st.p = initial)
+theorem orphanLoop_ok {fuel : Nat} (ih : FileSpecs AP EL S pf ef N fuel) (initial : Item) (st : FState)
+    (hs : S initial) (hi : Inv EL S st.p) (hpc : st.p.peekCount ≤ 1) (htop : top st.p = initial)
     (hf : 8 * (mu st.p + real initial) + 19 ≤ fuel + 1) :
-    FSafe AP S (orphanLoop pf ef (fuel + 1) initial) st (fun tok st' => S tok ∧ Inv S st'.p ∧ st'.p.peekCount ≤ 1 ∧
+    FSafe AP S (orphanLoop pf ef (fuel + 1) initial) st (fun tok st' => S tok ∧ Inv EL S st'.p ∧ st'.p.peekCount ≤ 1 ∧
       top st'.p = tok ∧ mu st'.p + real tok ≤ mu st.p + real initial) := by
   unfold FileParser.orphanLoop
   split
@@ -638,9 +644,9 @@ theorem orphanLoop_ok {fuel : Nat} (ih : FileSpecs AP S pf ef N fuel) (initial :
       exact ⟨a, b, c, d, by omega⟩
   · exact FSafe.pure ⟨hs, hi, hpc, htop, Nat.le_refl _⟩
 
-theorem callParamsLoop_ok {fuel : Nat} (ih : FileSpecs AP S pf ef N fuel) (params : NodeList) (st : FState)
-    (hi : Inv S st.p) (hn : mu st.p ≤ N) (hf : 8 * mu st.p + 20 ≤ fuel + 1) :
-    FSafe AP S (callParamsLoop pf ef (fuel + 1) params) st (FPost S st) := by
+theorem callParamsLoop_ok {fuel : Nat} (ih : FileSpecs AP EL S pf ef N fuel) (params : NodeList) (st : FState)
+    (hi : Inv EL S st.p) (hn : mu st.p ≤ N) (hf : 8 * mu st.p + 20 ≤ fuel + 1) :
+    FSafe AP S (callParamsLoop pf ef (fuel + 1) params) st (FPost EL S st) := by
   unfold FileParser.callParamsLoop
   apply FSafe.bind
   apply nextNonComment_safe hz fuel st _ hi (by omega)
@@ -658,7 +664,7 @@ theorem callParamsLoop_ok {fuel : Nat} (ih : FileSpecs AP S pf ef N fuel) (param
     intro cmd st3 hi3 hs3 hpc3 ht3 hm3 _
     split
     · apply FSafe.bind
-      apply fbackup2_safe hi3 hs2 (by omega)
+      apply fbackup2_safe hi3 hs2 (by rw [hc']; decide) (by omega)
       intro st4 hi4 hm4 _
       rw [ht3] at hm4
       exact FSafe.pure ⟨hi4, by omega⟩
@@ -695,7 +701,7 @@ theorem callParamsLoop_ok {fuel : Nat} (ih : FileSpecs AP S pf ef N fuel) (param
         intro r st8 ⟨a, b⟩
         exact ⟨a, by omega⟩
       · apply FSafe.bind
-        apply FSafe.mono (Q := fun _ st' => Inv S st'.p ∧ mu st'.p + 2 ≤ mu st.p)
+        apply FSafe.mono (Q := fun _ st' => Inv EL S st'.p ∧ mu st'.p + 2 ≤ mu st.p)
         · split
           · apply FSafe.bind
             apply fbackup_safe hi5 (by omega)
@@ -706,7 +712,7 @@ theorem callParamsLoop_ok {fuel : Nat} (ih : FileSpecs AP S pf ef N fuel) (param
           split
           · rename_i he
             apply FSafe.bind
-            apply fbackup2_safe hi5 hs4 (by omega)
+            apply fbackup2_safe hi5 hs4 (by rw [hty4]; decide) (by omega)
             intro st6 hi6 hm6 _
             rw [ht5] at hm6
             have := real_le tok
@@ -748,9 +754,9 @@ theorem callParamsLoop_ok {fuel : Nat} (ih : FileSpecs AP S pf ef N fuel) (param
               intro r st10 ⟨a, b⟩
               exact ⟨a, by omega⟩
 
-theorem parseMsg_ok {fuel : Nat} (ih : FileSpecs AP S pf ef N fuel) (token : Item) (st : FState)
-    (hi : Inv S st.p) (hn : mu st.p ≤ N) (hf : 8 * mu st.p + 20 ≤ fuel + 1) :
-    FSafe AP S (parseMsg pf ef (fuel + 1) token) st (NPost S st) := by
+theorem parseMsg_ok {fuel : Nat} (ih : FileSpecs AP EL S pf ef N fuel) (token : Item) (st : FState)
+    (hi : Inv EL S st.p) (hn : mu st.p ≤ N) (hf : 8 * mu st.p + 20 ≤ fuel + 1) :
+    FSafe AP S (parseMsg pf ef (fuel + 1) token) st (NPost EL S st) := by
   unfold FileParser.parseMsg
   apply FSafe.bind
   apply parseAttrs_safe hz _ fuel [] st _ hi (by omega)
@@ -767,12 +773,12 @@ theorem parseMsg_ok {fuel : Nat} (ih : FileSpecs AP S pf ef N fuel) (token : Ite
     apply (ih.itemListLoop _ _ _ _ childrenOK_nil (by exact hi2) (by show mu st2.p ≤ N; omega) (by show 8 * mu st2.p + 20 ≤ fuel; omega)).mono
     intro contents st3 ⟨hl3, hi3, _, hm3⟩
     have hm3' : mu st3.p ≤ mu st2.p := by
-      have : mu st3.p + real (top st3.p) ≤ mu st2.p := hm3
+      have : mu st3.p + real (top st3.p) ≤ mu st2.p := hm3.1
       omega
     apply FSafe.bind
     apply fmodify_safe
     generalize hst : ({ st3 with inmsg := false } : FState) = st3'
-    have hi3' : Inv S st3'.p := by subst hst; exact hi3
+    have hi3' : Inv EL S st3'.p := by subst hst; exact hi3
     have hmm : mu st3'.p = mu st3.p := by subst hst; rfl
     split
     · rename_i hnone
@@ -788,9 +794,9 @@ theorem parseMsg_ok {fuel : Nat} (ih : FileSpecs AP S pf ef N fuel) (token : Ite
            intro rd2 st4 hi4 _ _ _ hm4 _
            exact FSafe.pure ⟨trivial, hi4, by omega⟩)
 
-theorem parsePlural_ok {fuel : Nat} (ih : FileSpecs AP S pf ef N fuel) (tok : Item) (st : FState)
-    (hs : S tok) (hi : Inv S st.p) (hn : mu st.p ≤ N) (hf : 8 * mu st.p + 20 ≤ fuel + 1) :
-    FSafe AP S (parsePlural pf ef (fuel + 1) tok) st (NPost S st) := by
+theorem parsePlural_ok {fuel : Nat} (ih : FileSpecs AP EL S pf ef N fuel) (tok : Item) (st : FState)
+    (hs : S tok) (hi : Inv EL S st.p) (hn : mu st.p ≤ N) (hf : 8 * mu st.p + 20 ≤ fuel + 1) :
+    FSafe AP S (parsePlural pf ef (fuel + 1) tok) st (NPost EL S st) := by
   unfold FileParser.parsePlural
   apply FSafe.bind
   apply fget_safe
@@ -814,7 +820,7 @@ theorem parsePlural_ok {fuel : Nat} (ih : FileSpecs AP S pf ef N fuel) (tok : It
       exact ⟨phCases_isSome _ pcs rfl hpcs, placeholderize_isSome (hd d rfl)⟩
 
 /-- every block parser meets its specification at every fuel level -/
-theorem fileSpecs_all : ∀ fuel, FileSpecs AP S pf ef N fuel := by
+theorem fileSpecs_all : ∀ fuel, FileSpecs AP EL S pf ef N fuel := by
   intro fuel
   induction fuel with
   | zero =>
@@ -836,21 +842,21 @@ theorem fileSpecs_all : ∀ fuel, FileSpecs AP S pf ef N fuel := by
       parsePlural := fun _ _ _ _ _ h => by omega }
   | succ f ih =>
     exact {
-      itemListLoop := itemListLoop_ok AP S pf ef N hz hN hwf hlex ih
-      textOrTag := textOrTag_ok AP S pf ef N hz hN hwf hlex ih
-      beginTag := beginTag_ok AP S pf ef N hz hN hwf hlex ih
-      parseTemplate := parseTemplate_ok AP S pf ef N hz hN hwf hlex ih
-      parseLet := parseLet_ok AP S pf ef N hz hN hwf hlex ih
-      ifLoop := ifLoop_ok AP S pf ef N hz hN hwf hlex ih
-      parseFor := parseFor_ok AP S pf ef N hz hN hwf hlex ih
-      parseSwitch := fun token endT st hend => parseSwitch_ok AP S pf ef N hz hN hwf hlex ih token endT hend st
-      switchLoop := switchLoop_ok AP S pf ef N hz hN hwf hlex ih
-      caseLoop := caseLoop_ok AP S pf ef N hz hN hwf hlex ih
-      parseCall := parseCall_ok AP S pf ef N hz hN hwf hlex ih
-      callParamsLoop := callParamsLoop_ok AP S pf ef N hz hN hwf hlex ih
-      orphanLoop := orphanLoop_ok AP S pf ef N hz hN hwf hlex ih
-      parseMsg := parseMsg_ok AP S pf ef N hz hN hwf hlex ih
-      parsePlural := parsePlural_ok AP S pf ef N hz hN hwf hlex ih }
+      itemListLoop := itemListLoop_ok AP EL S pf ef N hz hN hwf hlex ih
+      textOrTag := textOrTag_ok AP EL S pf ef N hz hN hwf hlex ih
+      beginTag := beginTag_ok AP EL S pf ef N hz hN hwf hlex ih
+      parseTemplate := parseTemplate_ok AP EL S pf ef N hz hN hwf hlex ih
+      parseLet := parseLet_ok AP EL S pf ef N hz hN hwf hlex ih
+      ifLoop := ifLoop_ok AP EL S pf ef N hz hN hwf hlex ih
+      parseFor := parseFor_ok AP EL S pf ef N hz hN hwf hlex ih
+      parseSwitch := fun token endT st hend => parseSwitch_ok AP EL S pf ef N hz hN hwf hlex ih token endT hend st
+      switchLoop := switchLoop_ok AP EL S pf ef N hz hN hwf hlex ih
+      caseLoop := caseLoop_ok AP EL S pf ef N hz hN hwf hlex ih
+      parseCall := parseCall_ok AP EL S pf ef N hz hN hwf hlex ih
+      callParamsLoop := callParamsLoop_ok AP EL S pf ef N hz hN hwf hlex ih
+      orphanLoop := orphanLoop_ok AP EL S pf ef N hz hN hwf hlex ih
+      parseMsg := parseMsg_ok AP EL S pf ef N hz hN hwf hlex ih
+      parsePlural := parsePlural_ok AP EL S pf ef N hz hN hwf hlex ih }
 
 end
 end SoyVerif.Lemmas.ParserSafe
